@@ -111,6 +111,8 @@ func rulesC18(p *Prog, r *Report) {
 		}
 	}
 
+	rateFamilyRule(p, r, "R18.5")
+
 	// tracker stores ------------------------------------------------------------------
 	type trackerStore struct {
 		st    *ssa.Store
@@ -323,6 +325,79 @@ func rulesC18(p *Prog, r *Report) {
 			} else {
 				r.OK("R18.2", construct, "every successful path afterwards stores the position with BlockTime = block time", p.instrPos(c))
 			}
+		}
+	}
+}
+
+// rateFamilyRule (R18.5): the kinked rate model has two parameter families on one record
+// (Base/Slope1/Slope2 and StableBase/StableSlope1/StableSlope2). The value just below the kink
+// (base + slope1) equals the value just above it only if both sides take base and slope1 from
+// the same family: one rate value (a returned rate, or the arguments of one pure rate helper)
+// never mixes the two families.
+func rateFamilyRule(p *Prog, r *Report, rule string) {
+	r.Rule(rule, "a borrow-rate value is built from one family of rate parameters (variable or stable), never a mix", 2)
+	fam := func(f string) string {
+		switch f {
+		case "Base", "Slope1", "Slope2":
+			return "variable"
+		case "StableBase", "StableSlope1", "StableSlope2":
+			return "stable"
+		}
+		return ""
+	}
+	families := func(vals []ssa.Value) map[string]bool {
+		out := map[string]bool{}
+		for _, v := range vals {
+			for _, o := range p.DeepOrigins(v) {
+				if len(o.Path) == 0 {
+					continue
+				}
+				if f := fam(o.Path[len(o.Path)-1]); f != "" && pathBaseTypeName(o) == "AssetRatesParams" {
+					out[f] = true
+				}
+			}
+		}
+		return out
+	}
+	var fns []*ssa.Function
+	for _, fn := range p.Funcs {
+		if moduleOf(fn) == "lend" && !p.isAuxFn(fn) && len(fn.Blocks) > 0 {
+			fns = append(fns, fn)
+		}
+	}
+	sort.Slice(fns, func(i, j int) bool { return fname(fns[i]) < fname(fns[j]) })
+	for _, fn := range fns {
+		n := 0
+		report := func(what string, fs map[string]bool, pos string) {
+			if len(fs) == 0 {
+				return
+			}
+			n++
+			r.Instance(rule)
+			r.FuncsSeen[fname(fn)] = true
+			construct := fmt.Sprintf("%s %s #%d", fname(fn), what, n)
+			if len(fs) > 1 {
+				r.Fail(rule, construct, "one rate value mixes the variable and the stable parameter family: at the optimal-utilisation kink the rate jumps (and can fall as utilisation rises) unless the two families happen to be equal", pos, nil)
+			} else {
+				r.OK(rule, construct, "one parameter family", pos)
+			}
+		}
+		for _, rt := range returns(fn) {
+			for _, res := range rt.Results {
+				if !strings.HasSuffix(res.Type().String(), "LegacyDec") {
+					continue
+				}
+				for _, alt := range phiAlternatives(res) {
+					report("returned rate", families([]ssa.Value{alt}), p.instrPos(rt))
+				}
+			}
+		}
+		for _, c := range calls(fn) {
+			call, ok := c.(*ssa.Call)
+			if !ok || !isComdexPure(call) {
+				continue
+			}
+			report("arguments of "+callName(c), families(call.Call.Args), p.instrPos(c))
 		}
 	}
 }
